@@ -604,8 +604,13 @@ func (w *W) appendVals(s []Value, elems []Value, elemZero func() Value) []Value 
 	n := len(s) + len(elems)
 	if n <= cap(s) {
 		ns := s[:n]
+		// elems may alias the destination: snapshot first
+		tmp := make([]Value, len(elems))
 		for i, e := range elems {
-			w.store(&ns[len(s)+i], copyVal(e))
+			tmp[i] = copyVal(e)
+		}
+		for i := range tmp {
+			w.assign(&ns[len(s)+i], tmp[i])
 		}
 		return ns
 	}
@@ -698,7 +703,7 @@ func (w *W) builtin(fr *frame, bi *ssa.Builtin, args []Value) Value {
 				tmp[i] = copyVal(src[i])
 			}
 			for i := 0; i < n; i++ {
-				w.store(&dst[i], tmp[i])
+				w.assign(&dst[i], tmp[i])
 			}
 		}
 		return mkInt(64, uint64(n))
@@ -740,7 +745,7 @@ func (w *W) builtin(fr *frame, bi *ssa.Builtin, args []Value) Value {
 			if len(s) > 0 {
 				elT := bi.Type().(*types.Signature).Params().At(0).Type().Underlying().(*types.Slice).Elem()
 				for i := range s {
-					w.store(&s[i], zeroValue(elT))
+					w.assign(&s[i], zeroValue(elT))
 				}
 			}
 		}
